@@ -188,6 +188,7 @@ class FuncTypes:
         self.fi = fi
         self.env: Dict[str, Optional[str]] = {}
         self.attrs_used: Dict[str, Set[str]] = {}
+        self.tuple_elems: Dict[str, list] = {}
         self._infer()
 
     def _ann_type(self, ann, has_none_default=False):
@@ -303,6 +304,13 @@ class FuncTypes:
             # out-parameters and container fills
             f = n.func
             if isinstance(f, ast.Attribute):
+                if f.attr in ("append", "insert", "add") and isinstance(f.value, ast.Name) and n.args and isinstance(n.args[-1], ast.Tuple):
+                    ts = [self.type_of(x) for x in n.args[-1].elts]
+                    old = self.tuple_elems.get(f.value.id)
+                    if old is None or len(old) != len(ts):
+                        self.tuple_elems[f.value.id] = ts
+                    else:
+                        self.tuple_elems[f.value.id] = [tjoin(a, b) for a, b in zip(old, ts)]
                 if f.attr in ("append", "insert", "add") and isinstance(f.value, ast.Name) and n.args:
                     et = self.type_of(n.args[-1])
                     if et in (T_NODE,):
@@ -363,6 +371,12 @@ class FuncTypes:
                 out.append((target.id, T_ELEM))
             elif t == T_SPEC:
                 out.append((target.id, T_SPEC))
+        elif isinstance(target, ast.Tuple) and isinstance(it, ast.Name) and it.id in getattr(self, "tuple_elems", {}):
+            ts = self.tuple_elems[it.id]
+            if len(ts) == len(target.elts):
+                for a, tt in zip(target.elts, ts):
+                    if isinstance(a, ast.Name) and tt is not None:
+                        out.append((a.id, tt))
         elif isinstance(target, ast.Tuple) and isinstance(it, ast.Call):
             f = it.func
             if isinstance(f, ast.Name) and f.id == "enumerate" and it.args and len(target.elts) == 2:
